@@ -155,13 +155,16 @@ func (m *Manager) Close() error {
 	m.lock.Lock()
 	defer m.lock.Unlock()
 
+	// An allocation whose relay socket reports an error on close must not keep
+	// the others from being closed.
+	var firstErr error
 	for _, a := range m.allocations {
-		if err := a.Close(); err != nil {
-			return err
+		if err := a.Close(); err != nil && firstErr == nil {
+			firstErr = err
 		}
 	}
 
-	return nil
+	return firstErr
 }
 
 // CreateAllocation creates a new allocation and starts relaying.
